@@ -262,6 +262,15 @@ fn verif_dir() -> String {
     std::env::var("VERIF_DIR").unwrap_or_else(|_| "/verif".to_string())
 }
 
+/// number of cases of a run; VERIF_MAX_CASES caps it (debugging / calibration only)
+pub fn cases_of(prop: &dyn Prop, tier: Tier) -> u64 {
+    let n = prop.cases(tier);
+    match std::env::var("VERIF_MAX_CASES").ok().and_then(|s| s.parse::<u64>().ok()) {
+        Some(c) => n.min(c),
+        None => n,
+    }
+}
+
 /// Worker: runs shard `shard` of `nshards`, writes a JSON summary to `out_path`.
 pub fn worker(
     prop: &dyn Prop,
@@ -275,7 +284,7 @@ pub fn worker(
     install_panic_hook();
     install_log_sink();
     std::env::set_var("VERIF_TIER_CUR", tier.name());
-    let n = prop.cases(tier);
+    let n = cases_of(prop, tier);
     let cap = Duration::from_secs(prop.time_cap(tier));
     let t0 = Instant::now();
     let mut m = Merged::default();
@@ -425,7 +434,7 @@ pub fn load_findings() -> Vec<Finding> {
 pub fn run(prop: &dyn Prop, tier: Tier, seed: u64) -> i32 {
     let t0 = Instant::now();
     let id = prop.id();
-    let n = prop.cases(tier);
+    let n = cases_of(prop, tier);
     let ncpu: u64 = std::env::var("VERIF_JOBS").ok().and_then(|s| s.parse().ok()).unwrap_or(16);
     let nshards = ncpu.min(n.max(1));
     let exe = std::env::current_exe().expect("current_exe");
